@@ -36,12 +36,8 @@ func (s *Server) liveMonitor(conn net.Conn, rd *PipelineReader, msg *Message) er
 		s.monconnsMu.Unlock()
 		conn.Close()
 	}()
-	ack := []byte("+OK\r\n")
-	if msg.OutputType == JSON {
-		ack = []byte("$11\r\n{\"ok\":true}\r\n")
-	}
 	s.monconnsMu.Lock()
-	conn.Write(ack)
+	writeLiveAck(conn, msg)
 	s.monconnsMu.Unlock()
 	msgs, err := rd.ReadMessages()
 	if err != nil {
@@ -50,10 +46,10 @@ func (s *Server) liveMonitor(conn net.Conn, rd *PipelineReader, msg *Message) er
 		}
 		return err
 	}
-	for _, msg := range msgs {
-		if len(msg.Args) == 1 && strings.ToLower(msg.Args[0]) == "quit" {
+	for _, m := range msgs {
+		if len(m.Args) == 1 && strings.ToLower(m.Args[0]) == "quit" {
 			s.monconnsMu.Lock()
-			conn.Write(ack)
+			writeLiveAck(conn, msg)
 			s.monconnsMu.Unlock()
 			return nil
 		}
